@@ -285,7 +285,7 @@ func init() {
 		PID: "C12", PLevel: "exploration",
 		RuleText: "scenario = both engines, up to 2x3 with processors (filters, splits, parallel workers), rejections and DLQ; a force stop is issued at one of six classes of instant: node start-up (0-13 events after Start), mid-flow at a PRNG-chosen event index, while a destination withholds its acks, while the DLQ withholds its acks, 0-3 ms after a graceful stop began (slow destination), idle. Then WaitPipeline, then a user Start. Judged: the run terminates (WaitPipeline returns; a case exceeding its watchdog twice = wedge; a reproduced process death = violation), the stored status becomes Degraded with a cause (force stop, unless another fatal cause won the race) and never Recovering/Running again before the user start, every source ack in the whole history is justified (C01 predicate), Start succeeds, every source is reopened at the position stored at that moment and no record at or before it lacks a terminal outcome. Non-trivial: a termination was observed; distinct = distinct (engine, topology, instant class, in-flight class, resulting status).",
 		Assume:   []string{"blocked fake plugins release on context cancellation exactly like the built-in sandbox detaches, so an 'unresponsive plugin' does not manufacture a hang the transport could not have"},
-		Quick:    300, Thorough: 9000, HangIsViol: true, DeathIsViol: true,
+		Quick:    300, Thorough: 3000, HangIsViol: true, DeathIsViol: true,
 		PointBias: []string{"lifecycle.start.checked", "lifecycle.start.before-run", "lifecycle.stop.checked", "lifecycle.recover.backoff-elapsed", "lifecycle.run.ended", "pipeline.updatestatus.before-store", "funnel.worker.ack", "funnel.worker.nack"},
 		Anchors:   []string{"pkg/lifecycle/stream/force_stop.go", "pkg/lifecycle/stream/source.go", "pkg/lifecycle/stream/destination.go", "pkg/lifecycle/stream/destination_acker.go", "pkg/lifecycle/stream/dlq.go", "pkg/lifecycle-poc/funnel/worker.go"},
 		Gen:       gen, Judge: judge, Hooks: hooks,
